@@ -56,6 +56,9 @@ ALL_STS = {'provides': ['ALL', 'NONE'], 'requires': ['ALL', 'NONE'], 'fac': 'cre
 
 
 def judge(case):
+    if case.get('pysched'):
+        from .. import pysched  # pylint: disable=import-outside-toplevel
+        return pysched.judge(case)
     res = globals()['judge_' + case['kind']](case)
     if case.get('lab'):
         from .. import lab  # pylint: disable=import-outside-toplevel
@@ -437,10 +440,22 @@ def explore(ctx):
     if ctx.thorough:
         for part in pmap(lab_confirm, [(i, 48) for i in range(48)]):
             ctx.merge(part)
+    # SCHEDULES of the generator: two builds in two Python threads that look names up in ONE shared parsed model
+    from .. import pysched, modelgen as MG  # pylint: disable=import-outside-toplevel
+    specs = [{'point': dict(MG.BASE_POINT, ns='N.M', spell='partial'), 'cfg_a': {}, 'cfg_b': {}, 'shared': True}]
+    if ctx.thorough:
+        specs += [{'point': dict(MG.mc_base_point(), ns='N.M.K'), 'cfg_a': {}, 'cfg_b': {}, 'shared': True, 'every': 97},
+                  {'point': dict(MG.BASE_POINT, extscope='split', place='parent'), 'cfg_a': {}, 'cfg_b': {'fac': 'import'},
+                   'shared': True}]
+    for part in pmap(pysched.pair_task, pysched.pair_jobs(specs, 16)):
+        ctx.merge(part)
     ctx.rule = ('(a) 3^5 placements of X x 4 component scopes x 6 spellings x {provides/MTS, requires/STS}; (b) 3^5 '
                 'placements of extern T x 4 interface scopes x 6 spellings x {provides, requires, multi-client, STS}; '
                 '(c) 3^5 placements of enum R x 5 spellings; (d) 2^5 component placements x 6 requested FQNs; '
-                'exhaustive; non-trivial = at least one real declaration placed')
+                'exhaustive; non-trivial = at least one real declaration placed; (e) two builds in two Python threads on one '
+                'shared parsed model: every one-preemption schedule (first thread preempted at the first and at the last '
+                'execution of every distinct library line, the other build atomic; roles swapped) must give both builds '
+                'their sequential output')
     ctx.bounds = {'namespaces': ['<global>', 'A', 'A.B', 'C', 'AB'], 'spellings': 6}
     ctx.assumptions += ['types used by the generated code are read from the generated text in this check; that the '
                         'text compiles against distinct non-convertible mock types is confirmed by the lab checks',
